@@ -148,6 +148,14 @@ proof fn lemma_dfs_yield_path(dg: &Dg, st0: Seq<usize>, vis0: Seq<bool>, st1: Se
     assert(search_step(has, ord, s, vis0, path, p, v as int));
 }
 
+/// what `new` establishes: the search invariants hold for the given sources, all of them root entries, empty search path
+spec fn dfs_new_post(dg: &Dg, st: Seq<usize>, vis: Seq<bool>, all: Seq<usize>) -> bool {
+    &&& dfs_inv_k(dg, st, vis, src_set(all), all.len() as int)
+    &&& dfs_inv(dg, st, vis, src_set(all))
+    &&& dfs_inv_pk(dg, st, vis, src_set(all), all.len() as int, Seq::new(all.len(), |i: int| None::<int>), Seq::<int>::empty())
+    &&& dfs_inv_p(dg, st, vis, src_set(all), Seq::<int>::empty())
+}
+
 /// the state built by `new` satisfies the search invariants (empty search path)
 proof fn lemma_dfs_new_inv(dg: &Dg, all: Seq<usize>, vis: Seq<bool>)
     requires
@@ -156,8 +164,7 @@ proof fn lemma_dfs_new_inv(dg: &Dg, all: Seq<usize>, vis: Seq<bool>)
         vis.len() == dg.ord(),
         forall|i: int| 0 <= i < vis.len() ==> !#[trigger] vis[i],
     ensures
-        dfs_inv_k(dg, all, vis, src_set(all), all.len() as int),
-        dfs_inv_pk(dg, all, vis, src_set(all), all.len() as int, Seq::new(all.len(), |i: int| None::<int>), Seq::<int>::empty()),
+        dfs_new_post(dg, all, vis, all),
 {
     lemma_src_set(all);
     let sv = dfs_sv(all);
@@ -170,6 +177,8 @@ proof fn lemma_dfs_new_inv(dg: &Dg, all: Seq<usize>, vis: Seq<bool>)
         let i = choose|i: int| 0 <= i < all.len() && #[trigger] all[i] as int == x;
         assert(sv[i] == x);
     }
+    assert(dfs_inv_k(dg, all, vis, src_set(all), all.len() as int));
+    assert(dfs_inv_pk(dg, all, vis, src_set(all), all.len() as int, Seq::new(all.len(), |i: int| None::<int>), Seq::<int>::empty()));
 }
 
 impl<'a> Dfs<'a> {
@@ -215,9 +224,8 @@ impl<'a> Dfs<'a> {
         r.stack@ == sources.remaining(),
         r.visited@ == Seq::new(digraph.ord(), |i: int| false),
         r.wf(),
-        r.inv_k(src_set(sources.remaining()), sources.remaining().len() as int),
-        r.inv(src_set(sources.remaining())),
-        dfs_inv_pk(r.digraph, r.stack@, r.visited@, src_set(sources.remaining()), sources.remaining().len() as int, Seq::new(sources.remaining().len(), |i: int| None::<int>), Seq::<int>::empty()) && r.inv_p(src_set(sources.remaining()), Seq::<int>::empty()),
+        // r.inv_k(S, |sources|), r.inv(S), r.inv_p(S, empty path) for S = set of the sources
+        dfs_new_post(r.digraph, r.stack@, r.visited@, sources.remaining()),
     @fn_start
         let ghost all = sources.remaining();
     @loop 1
@@ -231,10 +239,8 @@ impl<'a> Dfs<'a> {
     @fn_end
         proof {
             assert(stack@ =~= all);
-            assert forall|vis: Seq<bool>| #![trigger dfs_inv_k(digraph, stack@, vis, src_set(all), all.len() as int)]
-                vis.len() == order && (forall|i: int| 0 <= i < vis.len() ==> !#[trigger] vis[i]) implies
-                dfs_inv_k(digraph, stack@, vis, src_set(all), all.len() as int)
-                && dfs_inv_pk(digraph, stack@, vis, src_set(all), all.len() as int, Seq::new(all.len(), |i: int| None::<int>), Seq::<int>::empty()) by {
+            assert forall|vis: Seq<bool>| vis.len() == order && (forall|i: int| 0 <= i < vis.len() ==> !#[trigger] vis[i]) implies
+                #[trigger] dfs_new_post(digraph, stack@, vis, all) by {
                 lemma_dfs_new_inv(digraph, all, vis);
             }
         }
@@ -474,6 +480,16 @@ proof fn lemma_dist_yield_path(dg: &Dg, st0: Seq<(usize, usize)>, vis0: Seq<bool
     assert(search_step(has, ord, s, vis0, path, p, v));
 }
 
+/// what `new` establishes: the search invariants hold for the given sources, all of them root entries, any depth record,
+/// empty search path
+spec fn dist_new_post(dg: &Dg, st: Seq<(usize, usize)>, vis: Seq<bool>, all: Seq<usize>) -> bool {
+    &&& dist_wf(dg, st, vis)
+    &&& forall|dep: Seq<int>| #![trigger dist_inv_k(dg, st, vis, src_set(all), all.len() as int, dep)] #![trigger dist_inv(dg, st, vis, src_set(all), dep)]
+            dep.len() == dg.ord() ==> dist_inv_k(dg, st, vis, src_set(all), all.len() as int, dep) && dist_inv(dg, st, vis, src_set(all), dep)
+    &&& dist_inv_pk(dg, st, vis, src_set(all), all.len() as int, Seq::new(all.len(), |i: int| None::<int>), Seq::<int>::empty())
+    &&& dist_inv_p(dg, st, vis, src_set(all), Seq::<int>::empty())
+}
+
 /// the state built by `new` satisfies the search invariants (empty search path, any depth record)
 proof fn lemma_dist_new_inv(dg: &Dg, all: Seq<usize>, st: Seq<(usize, usize)>, vis: Seq<bool>)
     requires
@@ -483,9 +499,7 @@ proof fn lemma_dist_new_inv(dg: &Dg, all: Seq<usize>, st: Seq<(usize, usize)>, v
         vis.len() == dg.ord(),
         forall|i: int| 0 <= i < vis.len() ==> !#[trigger] vis[i],
     ensures
-        dist_wf(dg, st, vis),
-        forall|dep: Seq<int>| dep.len() == dg.ord() ==> #[trigger] dist_inv_k(dg, st, vis, src_set(all), all.len() as int, dep),
-        dist_inv_pk(dg, st, vis, src_set(all), all.len() as int, Seq::new(all.len(), |i: int| None::<int>), Seq::<int>::empty()),
+        dist_new_post(dg, st, vis, all),
 {
     lemma_src_set(all);
     lemma_count_false_bound(vis);
@@ -501,6 +515,11 @@ proof fn lemma_dist_new_inv(dg: &Dg, all: Seq<usize>, st: Seq<(usize, usize)>, v
     }
     assert(dist_wf(dg, st, vis));
     assert(dfs_core(arcs_of(dg), dg.ord() as int, src_set(all), all.len() as int, vis, sv));
+    assert forall|dep: Seq<int>| dep.len() == dg.ord() implies #[trigger] dist_inv_k(dg, st, vis, src_set(all), all.len() as int, dep) by {}
+    assert forall|dep: Seq<int>| dep.len() == dg.ord() implies #[trigger] dist_inv(dg, st, vis, src_set(all), dep) by {
+        assert(dist_inv_k(dg, st, vis, src_set(all), all.len() as int, dep));
+    }
+    assert(dist_inv_pk(dg, st, vis, src_set(all), all.len() as int, Seq::new(all.len(), |i: int| None::<int>), Seq::<int>::empty()));
 }
 
 impl<'a> DfsDist<'a> {
@@ -546,8 +565,8 @@ impl<'a> DfsDist<'a> {
         r.stack@ == Seq::new(sources.remaining().len(), |i: int| (sources.remaining()[i], 0usize)),
         r.visited@ == Seq::new(digraph.ord(), |i: int| false),
         r.wf(),
-        forall|dep: Seq<int>| #![trigger r.inv_k(src_set(sources.remaining()), sources.remaining().len() as int, dep)] #![trigger r.inv(src_set(sources.remaining()), dep)] dep.len() == digraph.ord() ==> r.inv_k(src_set(sources.remaining()), sources.remaining().len() as int, dep) && r.inv(src_set(sources.remaining()), dep),
-        dist_inv_pk(r.digraph, r.stack@, r.visited@, src_set(sources.remaining()), sources.remaining().len() as int, Seq::new(sources.remaining().len(), |i: int| None::<int>), Seq::<int>::empty()) && r.inv_p(src_set(sources.remaining()), Seq::<int>::empty()),
+        // r.inv_k(S, |sources|, dep), r.inv(S, dep) for every depth record dep, r.inv_p(S, empty path)
+        dist_new_post(r.digraph, r.stack@, r.visited@, sources.remaining()),
     @fn_start
         let ghost all = sources.remaining();
     @loop 1
@@ -562,11 +581,9 @@ impl<'a> DfsDist<'a> {
     @fn_end
         proof {
             assert(stack@ =~= Seq::new(all.len(), |i: int| (all[i], 0usize)));
-            assert forall|vis: Seq<bool>| #![trigger dist_wf(digraph, stack@, vis)]
-                vis.len() == order && (forall|i: int| 0 <= i < vis.len() ==> !#[trigger] vis[i]) implies
-                dist_wf(digraph, stack@, vis)
-                && (forall|dep: Seq<int>| dep.len() == order ==> #[trigger] dist_inv_k(digraph, stack@, vis, src_set(all), all.len() as int, dep))
-                && dist_inv_pk(digraph, stack@, vis, src_set(all), all.len() as int, Seq::new(all.len(), |i: int| None::<int>), Seq::<int>::empty()) by {
+            assert forall|q: Seq<bool>| #[trigger] count_false(q) <= q.len() by { lemma_count_false_bound(q); }
+            assert forall|vis: Seq<bool>| vis.len() == order && (forall|i: int| 0 <= i < vis.len() ==> !#[trigger] vis[i]) implies
+                #[trigger] dist_new_post(digraph, stack@, vis, all) by {
                 lemma_dist_new_inv(digraph, all, stack@, vis);
             }
         }
@@ -792,6 +809,14 @@ proof fn lemma_pred_yield_path(dg: &Dg, st0: Seq<(Option<usize>, usize)>, vis0: 
     assert(pred_inv_pk(dg, st1, vis1, s, k2, path_after(path, opt_int(e.0), v)));
 }
 
+/// what `new` establishes: the search invariants hold for the given sources, all of them root entries, empty search path
+spec fn pred_new_post(dg: &Dg, st: Seq<(Option<usize>, usize)>, vis: Seq<bool>, all: Seq<usize>) -> bool {
+    &&& pred_inv_k(dg, st, vis, src_set(all), all.len() as int)
+    &&& pred_inv(dg, st, vis, src_set(all))
+    &&& pred_inv_pk(dg, st, vis, src_set(all), all.len() as int, Seq::<int>::empty())
+    &&& pred_inv_p(dg, st, vis, src_set(all), Seq::<int>::empty())
+}
+
 /// the state built by `new` satisfies the search invariants (empty search path)
 proof fn lemma_pred_new_inv(dg: &Dg, all: Seq<usize>, st: Seq<(Option<usize>, usize)>, vis: Seq<bool>)
     requires
@@ -801,8 +826,7 @@ proof fn lemma_pred_new_inv(dg: &Dg, all: Seq<usize>, st: Seq<(Option<usize>, us
         vis.len() == dg.ord(),
         forall|i: int| 0 <= i < vis.len() ==> !#[trigger] vis[i],
     ensures
-        pred_inv_k(dg, st, vis, src_set(all), all.len() as int),
-        pred_inv_pk(dg, st, vis, src_set(all), all.len() as int, Seq::<int>::empty()),
+        pred_new_post(dg, st, vis, all),
 {
     lemma_src_set(all);
     let sv = pred_sv(st);
@@ -817,6 +841,8 @@ proof fn lemma_pred_new_inv(dg: &Dg, all: Seq<usize>, st: Seq<(Option<usize>, us
     }
     assert(pred_wf(dg, st, vis));
     assert(dfs_core(arcs_of(dg), dg.ord() as int, src_set(all), all.len() as int, vis, sv));
+    assert(pred_inv_k(dg, st, vis, src_set(all), all.len() as int));
+    assert(pred_inv_pk(dg, st, vis, src_set(all), all.len() as int, Seq::<int>::empty()));
 }
 
 impl PredecessorTree {
@@ -902,9 +928,8 @@ impl<'a> DfsPred<'a> {
         r.stack@ == Seq::new(sources.remaining().len(), |i: int| (None::<usize>, sources.remaining()[i])),
         r.visited@ == Seq::new(digraph.ord(), |i: int| false),
         r.wf(),
-        r.inv_k(src_set(sources.remaining()), sources.remaining().len() as int),
-        r.inv(src_set(sources.remaining())),
-        pred_inv_pk(r.digraph, r.stack@, r.visited@, src_set(sources.remaining()), sources.remaining().len() as int, Seq::<int>::empty()) && r.inv_p(src_set(sources.remaining()), Seq::<int>::empty()),
+        // r.inv_k(S, |sources|), r.inv(S), r.inv_p(S, empty path) for S = set of the sources
+        pred_new_post(r.digraph, r.stack@, r.visited@, sources.remaining()),
     @fn_start
         let ghost all = sources.remaining();
     @loop 1
@@ -919,10 +944,8 @@ impl<'a> DfsPred<'a> {
     @fn_end
         proof {
             assert(stack@ =~= Seq::new(all.len(), |i: int| (None::<usize>, all[i])));
-            assert forall|vis: Seq<bool>| #![trigger pred_inv_k(digraph, stack@, vis, src_set(all), all.len() as int)]
-                vis.len() == order && (forall|i: int| 0 <= i < vis.len() ==> !#[trigger] vis[i]) implies
-                pred_inv_k(digraph, stack@, vis, src_set(all), all.len() as int)
-                && pred_inv_pk(digraph, stack@, vis, src_set(all), all.len() as int, Seq::<int>::empty()) by {
+            assert forall|vis: Seq<bool>| vis.len() == order && (forall|i: int| 0 <= i < vis.len() ==> !#[trigger] vis[i]) implies
+                #[trigger] pred_new_post(digraph, stack@, vis, all) by {
                 lemma_pred_new_inv(digraph, all, stack@, vis);
             }
         }
